@@ -39,7 +39,19 @@
  * (counted in rep->excluded); --no-exclude lifts it. */
 static const char *const handover_fns[] = { "upipe_xfer_mgr_detach", "upipe_qsrc_no_ref", "upipe_xfer_probe_free", NULL };
 
+/* Compiled twice: -DQUEUE_PROP=6 (default) judges delivery, order, flow definitions, threads and stalls (C06);
+ * -DQUEUE_PROP=1 runs the same histories for C01 and judges only the end-of-case audit (everything destroyed exactly
+ * once, nothing left allocated); sanitizer reports count in both. */
+#ifndef QUEUE_PROP
+#define QUEUE_PROP 6
+#endif
+#if QUEUE_PROP == 1
+#define PID "C01"
+#define KEY_ACTIVE(key) (!strncmp(key, "audit/", 6))
+#else
 #define PID "C06"
+#define KEY_ACTIVE(key) (strncmp(key, "audit/", 6) != 0)
+#endif
 #define MAXITEMS 64
 #define MAXSP 16
 #define MAXMOCK 8
@@ -165,7 +177,7 @@ static struct ctx ctx;
 int __lsan_is_turned_off(void) { return ctx.ret != 0; }
 
 #define R(...) do { if (c->render) vp_render(c->rep, __VA_ARGS__); } while (0)
-#define FAIL(key, ...) do { if (!c->ret) { c->ret = vp_fail(c->rep, PID "/" key, __VA_ARGS__); R("    !! %s\n", c->rep->msg); } } while (0)
+#define FAIL(key, ...) do { if (!c->ret && KEY_ACTIVE(key)) { c->ret = vp_fail(c->rep, PID "/" key, __VA_ARGS__); R("    !! %s\n", c->rep->msg); } } while (0)
 #define INTERNAL(...) do { if (c->ret != 2) { c->rep->key[0] = 0; c->ret = vp_internal(c->rep, __VA_ARGS__); R("    !! internal: %s\n", c->rep->msg); } } while (0)
 #define CLS(b) (c->classes |= 1u << (b))
 
@@ -182,6 +194,24 @@ static int cur_side(struct ctx *c)
 
 static void check_quiescent(struct ctx *c, const char *when);
 
+/* The exclusion needs function names for return addresses.  symbolizer_ok(): primed once per process, OUTSIDE the
+ * heap accounting of a case (the first backtrace() dlopens libgcc, the first symbolisation starts llvm-symbolizer);
+ * if names cannot be had, no preemption inside calls is generated at all (weaker, never a false alarm). */
+static int symbolizer_state;   /* 0 unknown, 1 works, -1 unavailable */
+__attribute__((noinline)) static bool symbolizer_ok(void)
+{
+    if (symbolizer_state == 0) {
+        void *pcs[4];
+        char buf[256];
+        memset(buf, 0, sizeof buf);
+        int n = backtrace(pcs, 4);
+        if (n >= 1) __sanitizer_symbolize_pc((char *)__builtin_return_address(0) - 1, "%f", buf, sizeof buf - 1);
+        symbolizer_state = (n >= 1 && buf[0] != 0 && strcmp(buf, "??") != 0 && strstr(buf, "0x") != buf) ? 1 : -1;
+        if (symbolizer_state < 0) fprintf(stderr, "C06: no symbolizer (got '%s'): preemption inside calls disabled\n", buf);
+    }
+    return symbolizer_state > 0;
+}
+
 static bool on_handover_stack(void)
 {
     void *pcs[32];
@@ -193,7 +223,12 @@ static bool on_handover_stack(void)
         /* inlined frames come as consecutive NUL-terminated strings */
         for (const char *f = buf; *f && f < buf + sizeof buf - 1; f += strlen(f) + 1)
             for (int k = 0; handover_fns[k]; k++)
-                if (!strcmp(f, handover_fns[k])) return true;
+                if (!strcmp(f, handover_fns[k])) {
+                    /* exploration aid: with --no-exclude, C06_KEEP_EXCL=<names> keeps the named senders excluded */
+                    const char *keep = getenv("C06_KEEP_EXCL");
+                    if ((ctx.flags & VP_NO_EXCLUDE) && keep != NULL && strstr(keep, f) == NULL) continue;
+                    return true;
+                }
     }
     return false;
 }
@@ -201,10 +236,10 @@ static bool on_handover_stack(void)
 void upipe_verif_yield(int kind, const volatile void *addr)
 {
     struct ctx *c = &ctx;
-    if (!c->armed || c->in_preempt) return;
+    if (!c->armed || c->in_preempt || symbolizer_state <= 0) return;
     c->hooks_in_op++;
     if (c->countdown <= 0 || --c->countdown > 0) return;
-    if (!(c->flags & VP_NO_EXCLUDE) && on_handover_stack()) {
+    if ((!(c->flags & VP_NO_EXCLUDE) || getenv("C06_KEEP_EXCL")) && on_handover_stack()) {
         c->excluded++;
         R("    (no preemption here: a hand-over sender is on the stack -- open finding last-message-handover)\n");
         return;
@@ -966,6 +1001,7 @@ static void setup_worker(struct ctx *c, uint8_t f, uint8_t b3, uint8_t pa)
 static int run(const uint8_t *tape, size_t len, struct vp_report *rep, unsigned flags)
 {
     struct ctx *c = &ctx;
+    symbolizer_ok();
     memset(c, 0, sizeof(*c));
     tp_init(&c->t, tape, len);
     c->rep = rep; c->render = flags & VP_RENDER; c->flags = flags; c->hash = VP_HASH_INIT;
